@@ -33,7 +33,7 @@ RULE = ("(ip,len) pairs: ip from a boundary pool (0, 1, max, max-1, all-ones / s
         "'a/mask', 'a/hostmask'; every IPv6 address form + '/len'), on integers (0, 1, max, random, -1, max+1), on spellings only the "
         "class reads (surrounding blanks, blank for the slash) and on one-edit neighbours, with stdlib=False and stdlib=True; "
         "ip_factory with mode auto_detect / ipv4 / ipv6 (10% a wrong mode name) on IPv4 text, IPv6 text, integers and near misses; "
-        "check_valid_ipaddress on blank-wrapped IPv4 forms, IPv6 forms (FC11a) and near misses; all hand-written malformed texts go "
+        "check_valid_ipaddress on blank-wrapped IPv4 forms, IPv6 forms (must answer family 6; all were rejected before the repair of finding FC11a) and near misses; all hand-written malformed texts go "
         "through the three functions as well. Guard stream: every combination class of a wrong type for val / strict / stdlib / debug "
         "and of a wrong mode name for the factories, a non-str argument for check_valid_ipaddress, and None / float / bytes / list / "
         "tuple / object of the other family / debug='x' as constructor argument (exception class compared). Remaining value "
@@ -75,7 +75,11 @@ LEVEL_TEXT = ("Theorems (Lean 4, all (ip,len), no size bound): every derived val
               "constructor accepts, every failure is AddressValueError (factory_is_constructor); with stdlib=True the stdlib address of a "
               "host route, else obj.network without the host bits (factory_stdlib); ip_factory dispatches on ':' / the mode name, refuses "
               "an integer in auto_detect and a wrong mode (ip_factory_dispatch); check_valid_ipaddress answers (stripped text, 4) iff "
-              "IPv4Obj accepts the stripped text and never family 6 (check_valid_spec - the code as it is, known finding FC11a); the "
+              "IPv4Obj accepts the stripped text, (stripped text, 6) iff IPv4Obj refuses and IPv6Obj accepts it, and ValueError iff both refuse "
+              "(check_valid_spec, full statement); IPv4Obj never accepts a text holding a colon (v4_text_has_no_colon), so a text with a colon "
+              "that IPv6Obj accepts -- in particular every RFC 4291 spelling, alone or with /len -- is answered family 6 "
+              "(check_valid_families). Before finding FC11a was repaired in /repo ('fix: check_valid_ipaddress() tries IPv6 when the text is "
+              "not an IPv4 address') check_valid_spec stated 'never family 6'; the "
               "argument guards (guards_spec); the remaining value properties of both families (v4_extra_values, v6_extra_values). "
               "The model (its re-implementation of the stdlib parsing routines and of "
               "the two regexes included) is tied to the code by differential runs on every check, and the implementation's answers are "
@@ -1040,9 +1044,3 @@ def oracle_extra(case, ans):
             return []       # the empty object: the property is about addresses
         return [] if ans.startswith("err:") else [f"IPv{case['fam']}Obj accepted a {case['tag']} argument: {ans[:60]}"]
     return oracle_x(case, ans)
-
-
-def known_id(case, failure):
-    if case["op"] == "chk" and failure.startswith("check_valid_ipaddress rejects the valid IPv6 address"):
-        return "FC11a"
-    return None
